@@ -88,7 +88,8 @@ def tlc_jobs(ctx, acc):
 
     gen("gen-bfs-count", 4, Groups='{"g1", "g2"}', Bursts="{1, 4}", CTtl=3, Acts='{"pub", "rpc", "hb", "close"}')
     gen("gen-bfs-all", 3, Groups='{"g1", "g2"}', Parts="{0, 1}", Bursts="{1, 4}", CTtl=3, Acts=ALL_ACTS)
-    gen("gen-walks", 14, sim=6000 if th else 350, depth=16, Peers='{"p1", "p2", "p3"}', Topics='{"t1", "t2"}', Groups='{"g1", "g2", "g3"}',
+    # (in simulation mode TLC evaluates Emit on every successor it generates: about a hundred histories per walk)
+    gen("gen-walks", 14, sim=900 if th else 350, depth=16, Peers='{"p1", "p2", "p3"}', Topics='{"t1", "t2"}', Groups='{"g1", "g2", "g3"}',
         Parts="{0, 1}", Bursts="{1, 2, 4}", CTtl=3, CLimT=3, CLimP=2, Acts=ALL_ACTS)
     if os.environ.get("X04_DEV_SKIP_MC"):       # development aid only (mutation trials)
         jobs = {k: v for k, v in jobs.items() if k.startswith("gen-")}
